@@ -274,6 +274,7 @@ class World:
         self.capped = False
         self.p_enabled = False
         self.app_eager = False
+        self.last_dev_t = 0.0  # virtual time of the last deviation from the canonical environment (bounded liveness)
         self.frozen = False  # True: canonical environment, no choice points (used while a client bootstraps)
         self.extra_alts = []  # callables(world) -> [Alt] (scenario specific: kill, stop, state faults)
         self.digests = set()
@@ -357,6 +358,8 @@ class World:
                             j = chooser.choose(alts, quiescent=False)
                             if j:
                                 self.transitions += 1
+                                self.last_dev_t = self.now()
+                                self.log("inject", alts[j].label)
                                 alts[j].fn()
                     loop.run_iteration()
                     continue
@@ -367,6 +370,8 @@ class World:
                 if len(alts) > 1:
                     self.digests.add(self._digest())
                 self.transitions += 1
+                if j:
+                    self.last_dev_t = self.now()
                 self.log("choose", alts[j].label)
                 alts[j].fn()
                 # livelock guard: virtual time must make real progress
